@@ -118,3 +118,9 @@ R.contract("AvpAddress.value.fset", params={"self": "AvpAddress", "new_value": "
                          "(not str_contains(new_value, '.') and not str_contains(new_value, ':') and "
                          "not encodable(new_value))", "iff")],
            modifies=["self.payload"], props=["C01"])
+
+# C03 speaks about Address attributes as (family, text) pairs that can be fed back: the Address codec contracts are part of its
+# check as well (round 5: scope)
+for _n in ("AvpAddress.value", "AvpAddress.value.fset"):
+    if _n in R.contracts and "C03" not in R.contracts[_n].props:
+        R.contracts[_n].props.append("C03")
